@@ -4,37 +4,30 @@ the grammar's language by empty stack.
 -/
 import Pfl.Spec.PDA
 import Pfl.Proofs.CFGBase
+import Pfl.Proofs.PDAModes
 namespace Pfl
 namespace PDA
 
-/-- `_states` / `_stack_alphabet` mention everything in use -/
-structure WF {σ γ : Type} (P : PDA σ γ) : Prop where
-  src : ∀ t ∈ P.delta, t.1 ∈ P.states
-  dst : ∀ t ∈ P.delta, t.2.2.2.1 ∈ P.states
-  pop : ∀ t ∈ P.delta, t.2.2.1 ∈ P.stack
-  push : ∀ t ∈ P.delta, ∀ x ∈ t.2.2.2.2, x ∈ P.stack
-  inp : ∀ t ∈ P.delta, ∀ c, t.2.1 = some c → c ∈ P.inputs
-  start : ∀ s, P.start = some s → s ∈ P.states
-  startStack : ∀ z, P.startStack = some z → z ∈ P.stack
-  finals : ∀ f ∈ P.finals, f ∈ P.states
+/- The structure `PDA.WF` (`_states` / `_stack_alphabet` mention everything in use) is defined in
+`Pfl/Proofs/PDAModes.lean` (same name `Pfl.PDA.WF`, same fields). -/
 
 /-- `get_next_free` returns a name that is not in use -/
-theorem nextFree_fresh (pre : String) (used : List String) : nextFree pre used ∉ used := by
-  sorry
+theorem nextFree_fresh (pre : String) (used : List String) : nextFree pre used ∉ used :=
+  Modes.nextFree_fresh pre used
 
 theorem toFinalState_lang (P : PDA String String) (hP : P.WF) (w : List String) :
-    P.toFinalState.AccFinal w ↔ P.AccEmpty w := by
-  sorry
+    P.toFinalState.AccFinal w ↔ P.AccEmpty w :=
+  ⟨Modes.toFinalState_sound hP, Modes.toFinalState_complete hP⟩
 
 theorem toEmptyStack_lang (P : PDA String String) (hP : P.WF) (w : List String) :
-    P.toEmptyStack.AccEmpty w ↔ P.AccFinal w := by
-  sorry
+    P.toEmptyStack.AccEmpty w ↔ P.AccFinal w :=
+  ⟨Modes.toEmptyStack_sound hP, Modes.toEmptyStack_complete hP⟩
 
 /-- `CFG.to_pda`, for grammars in which no variable is named like the stack symbol of a
 terminal (`#TERM#t`) -/
 theorem ofCFG_lang (G : CFG) (hG : G.WF) (hfresh : ∀ t ∈ G.ters, ("#TERM#" ++ t) ∉ G.vars)
-    (w : List String) : (ofCFG G).AccEmpty w ↔ G.Lang w := by
-  sorry
+    (w : List String) : (ofCFG G).AccEmpty w ↔ G.Lang w :=
+  Modes.ofCFG_lang G hG hfresh w
 
 end PDA
 end Pfl
